@@ -222,6 +222,10 @@ def obligations(tier):
     obs.append(_BOb(f"{PID}/bounded/native survey of secondary entry points: PARAFAC2 variants, TR-ALS, constrained / randomised CP, masks, sparse component, normalisation exits, CMTF, TT-matrix",
                     "tensorly.decomposition:parafac2+tensor_ring_als+constrained_parafac+randomised_parafac+parafac+non_negative_tucker+non_negative_tucker_hals+coupled_matrix_tensor_3d_factorization+tensor_train_matrix",
                     lambda: _e2e.extras(tier, PID), dict(entry_points=9, clauses="those of this property"), "seed 0; tolerances 1e-6 (errors), 1e-8 (structure); one shared run per process, failures filtered by property", pid=PID))
+    # ---- the class wrappers hand the non-negativity options, initialisation and normalisation to the functions proved above
+    from . import wrappers as _W
+    obs.extend(_W.obligations(PID, select=("CP_NN", "CP_NN_HALS", "Tucker_NN", "Tucker_NN_HALS", "ConstrainedCP", "Parafac2"),
+                              only=("nn_modes", "non_negative", "init", "normalize_factors", "sparsity_coefficients", "core_sparsity_coefficient", "fixed_modes", "algorithm", "exact", "rank")))
     return obs
 
 
